@@ -10,6 +10,28 @@ claimed = {
   note="Assumes ranges are not inverted (parsePort refuses them; C08). Trusts z3 (answers cross-checked against z3 5.1 in the thorough tier), go/ssa's lowering of the source, and the engine's instruction semantics (validated on every run by replaying sampled passing paths natively and comparing observations).",
   ref="DESIGN.md 6.17"),
 }
+claimed.update({
+ "C02": dict(
+  text="Bounded model checking: the real HandlePFCPMsg stack (message.Parse, dispatch, all handlers, SendPFCPMsg, go-pfcp marshalling) is executed symbolically on requests built by go-pfcp with symbolic sequence numbers, SEIDs and rule values, against a fake socket, an arbitrary accept/reject datapath and an arbitrary random source; on every path the solver decides that exactly one datagram of the matching response type with the request's sequence number and the right SEID/F-SEID/Created-PDR content was written (none for response-type messages).",
+  note="History bound: establishment + 1 (quick) / 2 (thorough) further requests over <= 2 sessions; maxRetries = 2; fake datapath; request shapes are those of a well-formed baseline (malformed shapes are C01). Trust: z3, go/ssa, engine semantics (validated per run by native replay of sampled paths).",
+  ref="DESIGN.md 6.2"),
+ "C06": dict(
+  text="Inductive one-step check: from an arbitrary pool state satisfying the representation invariant (symbolic addresses, SEIDs, free/held split) one LookupOrAllocIP / DeallocIP with a symbolic SEID is executed symbolically and the solver decides range, exclusivity, stickiness, conservation and refusal-only-when-full; because the pre-state is arbitrary, histories of any length are covered for the pool sizes explored. Interleavings are covered by a path-sensitive lock-discipline check (every access to inventory/freePool on every path holds IPPool.mu), replayed with the race detector when violated. Construction is checked on concrete prefixes.",
+  note="Pool sizes /29 (quick), /28 (thorough); the allocation trigger (UE IP Address IE flags) is exercised through C02/C05 harnesses. Assumes sync.Mutex gives mutual exclusion; goroutine schedules are not executed.",
+  ref="DESIGN.md 6.6"),
+ "C07": dict(
+  text="Inductive one-step checks: FTEIDGenerator.Allocate/FreeID/IsAllocated from an arbitrary valid generator state (symbolic cursor, so wrap-around of the 32-bit cursor is an ordinary case, symbolic used set) and NewPFCPSession with an arbitrary, possibly repeating random source against a store holding arbitrary live sessions; the solver decides non-zero, uniqueness among live ids, cursor invariant and refusal rules. Lock discipline on usedMap/offset covers concurrent requests. Agreement between reported and programmed identifiers is checked in the C02/C05 message harnesses.",
+  note="Used set <= 2 (quick) / 4 (thorough) entries, store <= 2/3 sessions, maxRetries <= 2/4. Assumes sync.Mutex gives mutual exclusion; schedules are not executed; SEID draw and PutSession are not atomic across goroutines (noted in DESIGN.md).",
+  ref="DESIGN.md 6.7"),
+ "C09": dict(
+  text="Bounded model checking of the session-QER selection: MarkSessionQer (with Intersect/contains/findItemIndex) is executed symbolically on sessions with 1..3 PDRs, QER-id lists of 0..3 ids and 0..3 QERs, every id and rate symbolic; the solver decides on every path that at most one QER is marked, that the marked QER is referenced by every PDR, that QER values are untouched and that the handlers' two-call protocol marks the same id in the stored and in the message list.",
+  note="Rates/gates/bursts reaching BESS and UP4 are checked in the datapath plug-in harnesses when present in registry.json; the float burst computation is outside (see DESIGN.md). QER ids unique per list/session (PFCP).",
+  ref="DESIGN.md 6.9"),
+ "C19": dict(
+  text="Bounded model checking of ConfigHandler.ServeHTTP / handleSliceConfig / calculateBitRates with the method an arbitrary string, the body unreadable, malformed or any well-formed NetworkSlice with 64-bit rates and bursts, against a recording ResponseWriter and datapath; the solver decides one 405 and no datapath call for other methods, exactly one 4xx and no datapath call for bad bodies, one 201 and rates = MBR x unit (checked against overflow-free arithmetic) whenever non-zero and < 2^63.",
+  note="encoding/json is stubbed under the engine (fails or overwrites the target arbitrarily) and real in the native replay; the BESS/UP4 AddSliceInfo implementations are exercised in the plug-in harnesses.",
+  ref="DESIGN.md 6.19"),
+})
 pending = {}
 na = {
  "C10": "every clause quantifies over goroutine interleavings of teardown triggers and bounded-time termination; a sequential SSA-to-SMT executor cannot encode Go's scheduler, select and timers (DESIGN.md 6.10)",
